@@ -1,7 +1,10 @@
 package props
 
 import (
+	"encoding/json"
 	"fmt"
+	"math"
+	"math/big"
 
 	"github.com/woodsbury/jmespath/internal/verifmc/core"
 	"github.com/woodsbury/jmespath/internal/verifmc/ref"
@@ -40,6 +43,7 @@ func init() {
 		Phases: []core.Phase{
 			{Name: "algebra", Build: "instr", Procs: 1, Fn: c20Algebra},
 			{Name: "operators", Build: "instr", Fn: c20Operators},
+			{Name: "float-carriers", Build: "instr", Procs: 1, Fn: c20Floats},
 		},
 		Judge: c20Judge,
 		Assumptions: []string{
@@ -264,6 +268,16 @@ func c20OpsPoint(r *core.Run, x, y doc, tx bool) *core.Violation {
 }
 
 func c20Judge(r *core.Run, phase string, pt map[string]any) *core.Violation {
+	if pbool(pt, "float") {
+		// re-run the (small) phase and return the violation of the same law, if any
+		sub := *r
+		sub.Clusters = map[string]*core.Cluster{}
+		c20Floats(&sub)
+		for _, c := range sub.Clusters {
+			return c.Min
+		}
+		return nil
+	}
 	x, y := mkDoc(pstr(pt, "x")), mkDoc(pstr(pt, "y"))
 	if phase == "operators" {
 		return c20OpsPoint(r, x, y, ref.Truthy(x.Norm))
@@ -312,4 +326,71 @@ func c20Judge(r *core.Run, phase string, pt map[string]any) *core.Violation {
 		}
 	}
 	return nil
+}
+
+// c20Floats: the equality laws on numbers carried by Go floats that lie within a few units in the last place of each
+// other (and on their exact decimal spellings): equality must be exact equality of values.
+func c20Floats(r *core.Run) {
+	var fs []float64
+	for _, base := range []float64{1, 0.1, 0.3, 100, 1e15, 4503599627370496} {
+		x := base
+		for k := 0; k < 7; k++ {
+			fs = append(fs, x)
+			x = math.Nextafter(x, math.Inf(1))
+		}
+	}
+	fs = append(fs, 0.1+0.2, 0, math.Copysign(0, -1), -1, math.Nextafter(-1, 0))
+	n := len(fs)
+	r.Bound("float_values", n)
+	E := make([][]bool, n)
+	for i := range fs {
+		E[i] = make([]bool, n)
+		for j := range fs {
+			exact := new(big.Rat).SetFloat64(fs[i]).Cmp(new(big.Rat).SetFloat64(fs[j])) == 0
+			for _, carry := range []string{"float64", "float64-vs-decimal-text", "in-arrays"} {
+				var d any
+				xi, yj := any(fs[i]), any(fs[j])
+				if carry == "float64-vs-decimal-text" {
+					yj = json.Number(new(big.Rat).SetFloat64(fs[j]).FloatString(80))
+				}
+				d = map[string]any{"x": xi, "y": yj, "l": []any{"filler", xi, nil}}
+				expr := c20Eq
+				if carry == "in-arrays" {
+					expr = prepareImplCached("[x, [x]] == [y, [y]]")
+				}
+				o := expr.run(d)
+				r.Add("evaluations", 1)
+				r.Add("states", 1)
+				b, ok := boolOf(o)
+				pt := map[string]any{"law": "float-equality/" + carry, "x": fmt.Sprintf("%.17g", fs[i]), "y": fmt.Sprintf("%.17g", fs[j]), "expr": expr.Text, "doc": fmt.Sprintf("x=%.17g y=%.17g (%s)", fs[i], fs[j], carry), "float": true}
+				if !ok || b != exact {
+					r.Violate(&core.Violation{Sig: "C20/float-equality-is-not-exact/" + carry, Desc: fmt.Sprintf("%s with x=%.17g y=%.17g (%s)", expr.Text, fs[i], fs[j], carry), Point: pt, Expected: fmt.Sprint(exact), Actual: o.Short()})
+				}
+				if carry == "float64" {
+					E[i][j] = b
+					ne := c20Ne.run(d)
+					c1 := c20Con.run(d)
+					r.Add("evaluations", 2)
+					if nb, ok := boolOf(ne); !ok || nb == b {
+						r.Violate(&core.Violation{Sig: "C20/not-equal-is-not-the-negation/float", Desc: "x != y", Point: pt, Expected: fmt.Sprint(!b), Actual: ne.Short()})
+					}
+					if cb, ok := boolOf(c1); !ok || cb != b {
+						r.Violate(&core.Violation{Sig: "C20/contains-uses-another-relation/float", Desc: "contains([x], y)", Point: pt, Expected: fmt.Sprint(b), Actual: c1.Short()})
+					}
+				}
+			}
+		}
+	}
+	for i := 0; i < n; i++ {
+		for j := 0; j < n; j++ {
+			if E[i][j] != E[j][i] {
+				r.Violate(&core.Violation{Sig: "C20/not-symmetric/float", Desc: "x == y vs y == x", Point: map[string]any{"x": fmt.Sprintf("%.17g", fs[i]), "y": fmt.Sprintf("%.17g", fs[j]), "float": true}, Expected: fmt.Sprint(E[j][i]), Actual: fmt.Sprint(E[i][j])})
+			}
+			for k := 0; k < n; k++ {
+				if E[i][j] && E[j][k] && !E[i][k] {
+					r.Violate(&core.Violation{Sig: "C20/not-transitive/float", Desc: "x == y, y == z, x != z", Point: map[string]any{"x": fmt.Sprintf("%.17g", fs[i]), "y": fmt.Sprintf("%.17g", fs[j]), "z": fmt.Sprintf("%.17g", fs[k]), "float": true}, Expected: "true", Actual: "false"})
+				}
+			}
+		}
+	}
 }
